@@ -1,12 +1,12 @@
 SPECIFICATION Spec
 CONSTANTS
-  Budget = 3
-  SpaceSize = 3
+  Budget = 2
+  SpaceSize = 2
   MaxMeas = 2
-  Rewards <- PalNZP
-  Accs = {}
-  Steps = {0}
-  Extras = {0}
+  Rewards <- PalZP
+  Accs = {1}
+  Steps = {0, 1}
+  Extras = {0, 3}
   MonotoneSteps = TRUE
   Objective = "reward"
   Policy = "neg"
